@@ -5,10 +5,12 @@
     matcher assembly, the radix tree's Add / findNode / Find, FindRule, Execute's
     encoded-slash switch and capture decoding).  Spec.v is the documentation:
     path expressions, `ALL` / `!M` method lists, any-host, path_params on decoded
-    segments, decoded captures.  Guards name the open findings C03-F1, F3, F4, F6, F8;
-    each has a `_refuted` witness.  C03-F2, F5, F7 were repaired by `fix:` commits
-    (88da16a, 16cf34b, a779db8): the model is parametric in them ([fx2 fx5 fx7], [true] =
-    the tree as it is now) and the pinned behaviour is kept as `_pinned_refuted`. *)
+    segments, decoded captures.  Guards name the open findings C03-F1, F3, F4, F8;
+    each has a `_refuted` witness.  C03-F2, F5, F6, F7 were repaired by `fix:` commits
+    (88da16a, 16cf34b, 72ba5d4, a779db8): the model is parametric in them ([fx2 fx5 fx6 fx7],
+    [true] = the tree as it is now) and the pinned behaviour is kept as `_pinned_refuted`.
+    What is left of the guard of C03-F6 is the request view without RawPath, which no entry
+    point produces for a non-empty path any more (ae6db4f). *)
 From HV Require Import Base.Prelude C03.Model C03.Spec C03.Proofs C03.ProofsTree.
 Open Scope list_scope.
 Open Scope string_scope.
@@ -31,7 +33,7 @@ Print Assumptions C03_method_list_rejected.
 (** C03-F4: a non-empty list denoting no method is turned into "all methods" *)
 Theorem C03_F4_refuted :
   exists r cm q, only_matcher r = Some cm /\ guard_F4 (rl_methods r) = true /\
-    route_matches true eng_none cm q [] [] = MYes /\ spec_route_ok eng_none r [] q [] [] = false.
+    route_matches true true eng_none cm q [] [] = MYes /\ spec_route_ok eng_none r [] q [] [] = false.
 Proof. exact F4_refuted. Qed.
 Print Assumptions C03_F4_refuted.
 
@@ -43,7 +45,7 @@ Print Assumptions C03_hosts_any.
 
 Theorem C03_F1_refuted :
   exists r cm q, only_matcher r = Some cm /\ guard_F1 eng_none (rl_hosts r) q = true /\
-    route_matches true eng_none cm q [] [] = MNo /\ spec_route_ok eng_none r [] q [] [] = true.
+    route_matches true true eng_none cm q [] [] = MNo /\ spec_route_ok eng_none r [] q [] [] = true.
 Proof. exact F1_refuted. Qed.
 Print Assumptions C03_F1_refuted.
 
@@ -65,25 +67,26 @@ Theorem C03_route_matches_iff : forall eng r cr,
   forall path cm, In (path, cm) (cr_routes cr) ->
   exists rt, In rt (rl_routes r) /\ path = rt_path rt /\
     forall q keys vals,
-      length keys = length vals -> Forall valid_enc vals ->
+      length keys = length vals -> Forall valid_enc vals -> Forall (from_path q) vals ->
       guard_F1 eng (rl_hosts r) q = false ->
       guard_F4 (rl_methods r) = false ->
-      on_params guard_F6 (rl_slash r) q keys vals (rt_params rt) = false ->
+      on_params (guard_F6 true) (rl_slash r) q keys vals (rt_params rt) = false ->
       on_params guard_F8 (rl_slash r) q keys vals (rt_params rt) = false ->
-      route_matches true eng cm q keys vals =
+      route_matches true true eng cm q keys vals =
       of_bool (spec_scheme (rl_scheme r) q && spec_method (rl_methods r) (q_method q) &&
                spec_hosts eng (rl_hosts r) q &&
                forallb (spec_param eng (rl_slash r) q keys vals) (rt_params rt)).
 Proof. exact route_matches_iff. Qed.
 Print Assumptions C03_route_matches_iff.
 
-Theorem C03_F6_refuted :
+(** the pinned tree (before 72ba5d4) evaluated path_params on the still encoded value under `off` *)
+Theorem C03_F6_pinned_refuted :
   exists r ps cm q keys vals, only_matcher r = Some cm /\ cm_params cm = ps /\
-    length keys = length vals /\ Forall valid_enc vals /\
-    on_params guard_F6 (rl_slash r) q keys vals ps = true /\
-    route_matches true eng_none cm q keys vals = MNo /\ spec_route_ok eng_none r ps q keys vals = true.
-Proof. exact F6_refuted. Qed.
-Print Assumptions C03_F6_refuted.
+    length keys = length vals /\ Forall valid_enc vals /\ Forall (from_path q) vals /\
+    on_params (guard_F6 false) (rl_slash r) q keys vals ps = true /\
+    route_matches false true eng_none cm q keys vals = MNo /\ spec_route_ok eng_none r ps q keys vals = true.
+Proof. exact F6_pinned_refuted. Qed.
+Print Assumptions C03_F6_pinned_refuted.
 
 (** Execute rejects exactly the requests with an encoded slash under `off`; otherwise
     the captures are the decoded segments under the wildcard names, unnamed
@@ -124,7 +127,7 @@ Print Assumptions C03_F8_refuted.
 (** the tree-side findings, on loaded rule sets *)
 Theorem C03_F2_pinned_refuted :
   exists ds q k s segs,
-    served false true true ds q = Some (ONone, [k]) /\
+    served false true true true ds q = Some (ONone, [k]) /\
     nth_error (flat_routes 0 ds) (k_vid k) = Some s /\ guard_F2_params s = true /\
     sr_segs s q = Some segs /\
     ~ call_sees_route (flat_routes 0 ds) q k /\
@@ -134,7 +137,7 @@ Print Assumptions C03_F2_pinned_refuted.
 
 Theorem C03_F3_refuted :
   exists ds q k s segs caps sc,
-    served true true true ds q = Some (ORule 0 caps false, [k]) /\
+    served true true true true ds q = Some (ORule 0 caps false, [k]) /\
     nth_error (flat_routes 0 ds) (k_vid k) = Some s /\ sr_rule s = 0 /\
     guard_F3 (flat_routes 0 ds) s = true /\
     sr_segs s q = Some segs /\
@@ -145,8 +148,8 @@ Print Assumptions C03_F3_refuted.
 
 Theorem C03_F5_pinned_refuted :
   exists ds q k s segs caps sc es t,
-    load ds = Loaded es t /\ guard_F5 true true eng_none es t q = true /\
-    served true false true ds q = Some (ORule 1 caps false, [k]) /\
+    load ds = Loaded es t /\ guard_F5 true true true eng_none es t q = true /\
+    served true false true true ds q = Some (ORule 1 caps false, [k]) /\
     nth_error (flat_routes 0 ds) (k_vid k) = Some s /\
     sr_segs s q = Some segs /\
     ~ call_sees_route (flat_routes 0 ds) q k /\
@@ -157,8 +160,8 @@ Print Assumptions C03_F5_pinned_refuted.
 
 Theorem C03_F5_pinned_panic_refuted :
   exists ds q k es t,
-    load ds = Loaded es t /\ guard_F5 true true eng_none es t q = true /\
-    served true false true ds q = Some (OPanic, [k]) /\ k_res k = MPanic.
+    load ds = Loaded es t /\ guard_F5 true true true eng_none es t q = true /\
+    served true false true true ds q = Some (OPanic, [k]) /\ k_res k = MPanic.
 Proof. exact F5_pinned_panic_refuted. Qed.
 Print Assumptions C03_F5_pinned_panic_refuted.
 
@@ -167,9 +170,10 @@ Print Assumptions C03_F5_pinned_panic_refuted.
 Theorem C03_nonvacuous :
   exists r cm q keys vals,
     only_matcher r = Some cm /\ length keys = length vals /\ Forall valid_enc vals /\
+    Forall (from_path q) vals /\
     guard_F1 eng_none (rl_hosts r) q = false /\ guard_F4 (rl_methods r) = false /\
-    on_params guard_F6 (rl_slash r) q keys vals (cm_params cm) = false /\
+    on_params (guard_F6 true) (rl_slash r) q keys vals (cm_params cm) = false /\
     on_params guard_F8 (rl_slash r) q keys vals (cm_params cm) = false /\
-    route_matches true eng_none cm q keys vals = MYes.
+    route_matches true true eng_none cm q keys vals = MYes.
 Proof. exact route_semantics_nonvacuous. Qed.
 Print Assumptions C03_nonvacuous.
